@@ -8,6 +8,7 @@ in bv mode every program integer is widened (by its C signedness) to 136 bits be
 specification arithmetic, so specification sums/products never wrap although the code's do.
 """
 import ast
+import re
 import z3
 from .cast import FrontEndError, TInt, TFloat, TPtr, TArr, TStruct, TVoid, fn_params, fn_body, walk
 from .sem import simp
@@ -248,12 +249,15 @@ def make_helpers(exe):
     def real(v):
         return z3.RealVal(str(v))
 
+    def sizeof(tname):
+        return exe.tu.sizeof(exe.tu.ctype(tname))
+
     def same_obj(a, b):
         return z3.BoolVal(a._p.obj is b._p.obj)
 
     return dict(And=h_and, Or=h_or, Not=h_not, implies=h_implies, ite=h_ite, iff=h_iff, forall=forall,
                 exists=exists, u64=u64, is_pow2=is_pow2, arr=arr, off=off, NULL=NULL, pmod=pmod, imin=imin, imax=imax,
-                iabs=iabs, lit=lit, trunc=trunc, isnan=isnan, fp=fp, real=real, same_obj=same_obj,
+                iabs=iabs, lit=lit, sizeof=sizeof, trunc=trunc, isnan=isnan, fp=fp, real=real, same_obj=same_obj,
                 true=z3.BoolVal(True), false=z3.BoolVal(False), z3=z3, Select=z3.Select, Store=z3.Store,
                 fpLT=z3.fpLT, fpLEQ=z3.fpLEQ, fpGT=z3.fpGT, fpGEQ=z3.fpGEQ, fpEQ=z3.fpEQ, fpAbs=z3.fpAbs,
                 fpIsInf=z3.fpIsInf, fpNeg=z3.fpNeg, ToReal=z3.ToReal, ToInt=z3.ToInt, Sum=z3.Sum)
@@ -272,6 +276,32 @@ class _Rewrite(ast.NodeTransformer):
         self.bound.append(self.bound[-1] | {a.arg for a in node.args.args})
         node.body = self.visit(node.body)
         self.bound.pop()
+        return node
+
+    def _comp(self, node, fields):
+        names = set()
+        for g in node.generators:
+            for t in ast.walk(g.target):
+                if isinstance(t, ast.Name):
+                    names.add(t.id)
+        for g in node.generators:
+            g.iter = self.visit(g.iter)
+        self.bound.append(self.bound[-1] | names)
+        for f in fields:
+            setattr(node, f, self.visit(getattr(node, f)))
+        for g in node.generators:
+            g.ifs = [self.visit(i) for i in g.ifs]
+        self.bound.pop()
+        return node
+
+    def visit_ListComp(self, node):
+        return self._comp(node, ['elt'])
+
+    def visit_GeneratorExp(self, node):
+        return self._comp(node, ['elt'])
+
+    def visit_Starred(self, node):
+        node.value = self.visit(node.value)
         return node
 
     def visit_Name(self, node):
@@ -394,6 +424,8 @@ class Env:
                 return self.eval(self.defs[name], mode)
             finally:
                 self._active.discard((name, mode))
+        if name in ('range', 'len', 'min', 'max', 'abs', 'sum', 'all', 'any', 'int'):
+            return {'range': range, 'len': len, 'min': min, 'max': max, 'abs': abs, 'sum': sum, 'all': all, 'any': any, 'int': int}[name]
         st = self.states.get(mode)
         if st is None:
             raise SpecError('%s(...) not available here' % mode)
@@ -528,6 +560,11 @@ def eval_call_contract(exe, name, con, node, args, st):
         o = exe.new_obj('%s()#%d' % (name, exe.nsym), spec.get('ct') or (rt.to if not isinstance(rt.to, TVoid) else TInt(8, False, 'unsigned char')),
                         n=spec.get('n'))
         isn = z3.Bool('isnull(%s()#%d)' % (name, exe.nsym)) if con.get('nullable_result', True) else z3.BoolVal(False)
+        if isinstance(rt.to, TVoid):
+            o.meta['untyped'] = True
+            if con.get('result_bytes'):
+                from .cexpr import narrow_idx as _ni
+                o.meta['bytes'] = _ni(exe, env_pre.eval(con['result_bytes']))
         res = Ptr(o, (0,), (), rt.to, isnull=isn)
     elif isinstance(rt, (TInt, TFloat)):
         res = exe.sem.fresh('%s()#%d' % (name, exe.nsym), rt)
@@ -555,43 +592,17 @@ def _items(c):
 
 
 def havoc_target(exe, st, tgt, env, callee):
-    """tgt: 'd.parena' (one cell / field store) or 'arr[*]' (whole object) or callable."""
+    """havoc one assigns target; locations are resolved in env's (pre-call) state."""
     if callable(tgt):
         return tgt(exe, st, env)
-    if tgt == 'RAW':
-        exe.flow._havoc_one(st, RAW, (), 'call_' + callee)
+    for (oid, key) in sorted(frame_targets(exe, env.states['cur'], [tgt], env, callee), key=lambda x: (x[0], x[1])):
+        obj = exe.obj_by_id[oid]
+        exe.flow._havoc_one(st, obj, key, 'call_' + callee)
         if exe.flow.write_log is not None:
-            exe.flow.write_log.add((RAW.id, ()))
-        return
-    whole = tgt.endswith('[*]')
-    expr = tgt[:-3] if whole else tgt
-    parts = expr.split('.')
-    v = env.eval(parts[0])
-    if not isinstance(v, PtrView):
-        raise SpecError('assigns target %s of %s is not a location' % (tgt, callee))
-    p = v._p
-    for f in parts[1:-1] if not whole else parts[1:]:
-        nv = getattr(PtrView(exe, st, p), f)
-        if not isinstance(nv, PtrView):
-            raise SpecError('assigns path %s' % tgt)
-        p = nv._p
-    if whole:
-        if p.obj is None:
-            return
-        for key in _paths_of(exe, p.obj, p.path):
-            exe.flow._havoc_one(st, p.obj, key, 'call_' + callee)
-            if exe.flow.write_log is not None:
-                exe.flow.write_log.add((p.obj.id, key))
-        return
-    f = parts[-1] if len(parts) > 1 else None
-    if f is None:
-        raise SpecError('assigns target must be a field or [*]: ' + tgt)
-    path = p.path + (f,)
-    ft = p.ct.field(f)
-    for key in _paths_of(exe, p.obj, path):
-        exe.flow._havoc_one(st, p.obj, key, 'call_' + callee)
-        if exe.flow.write_log is not None:
-            exe.flow.write_log.add((p.obj.id, key))
+            exe.flow.write_log.add((oid, key))
+
+
+_TYPED_RE = re.compile(r'^typed\((.+),\s*["\'](.+)["\']\)\[\*\]$')
 
 
 def frame_targets(exe, st, tgts, env, fn):
@@ -603,6 +614,16 @@ def frame_targets(exe, st, tgts, env, fn):
         if tgt == 'RAW':
             out.add((RAW.id, ()))
             continue
+        mt = _TYPED_RE.match(tgt)
+        if mt:
+            # the byte buffer <expr> viewed as an array of <type>
+            v = env.eval(mt.group(1))
+            q = exe._ptr_retarget(v._p, exe.tu.ctype(mt.group(2)))
+            for key in _paths_of(exe, q.obj, ()):
+                out.add((q.obj.id, key))
+            continue
+        if tgt.endswith('.*'):
+            tgt = tgt[:-2] + '[*]'
         whole = tgt.endswith('[*]')
         expr = tgt[:-3] if whole else tgt
         parts = expr.split('.')
